@@ -1,9 +1,68 @@
 import Driver.Util
+import Lattigo.Model.Store
 
+/-
+  C09 handler.  Tie lines (everything else is a probe, answered `holds` by the dispatcher):
+    alias  <op> <pattern> <s0> <s1>   predicted outcome class of the aliased call vs the call with a
+                                      fresh distinct output (`same-as-fresh` / `differs`); s0, s1 are
+                                      the (small integer) scales given to op0 / op1 in the model run
+    inputs <op> <s0> <s1>             are all arguments other than the output unchanged
+                                      (`same-as-fresh` = unchanged, `differs` = some argument rewritten)
+    addhist <d0> <d1> <dOut>          ct+ct Add with an output that previously had degree dOut
+  ops: ckksEval ckksMul ckksMulRelin bgvTensor bgvTensorRelin bgvTensorSI bgvTensorSIRelin
+       bgvMatchScale bgvAddBig bgvMulBig rlweAut rlwePTS:<n> divRound divRoundNTT
+  patterns: distinct out=op0 out=op1 op0=op1 all
+-/
 namespace Driver.C09
-open Driver
+open Driver Lattigo.Store
 
-/-- stub: replaced by the property's real handler -/
-def handle (_toks : List String) : String := badOp
+def parseOp? (s : String) : Option Op :=
+  match s with
+  | "ckksEval" => some .ckksEval
+  | "ckksMul" => some .ckksMul
+  | "ckksMulRelin" => some .ckksMulRelin
+  | "bgvTensor" => some .bgvTensor
+  | "bgvTensorRelin" => some .bgvTensorRelin
+  | "bgvTensorSI" => some .bgvTensorSI
+  | "bgvTensorSIRelin" => some .bgvTensorSIRelin
+  | "bgvMatchScale" => some .bgvMatchScale
+  | "bgvAddBig" => some .bgvAddBig
+  | "bgvMulBig" => some .bgvMulBig
+  | "rlweAut" => some .rlweAut
+  | "divRound" => some .divRound
+  | "divRoundNTT" => some .divRoundNTT
+  | _ =>
+    match s.splitOn ":" with
+    | ["rlwePTS", n] => (parseNat? n).bind fun k => if k = 0 ∨ k > 4096 then none else some (.rlwePTS k)
+    | _ => none
+
+def parseAlias? (s : String) : Option Alias :=
+  match s with
+  | "distinct" => some .distinct
+  | "out=op0" => some .outOp0
+  | "out=op1" => some .outOp1
+  | "op0=op1" => some .op0Op1
+  | "all" => some .allEq
+  | _ => none
+
+def showOutcome : Outcome → String
+  | .sameAsFresh => "same-as-fresh"
+  | .differs => "differs"
+
+def handle (toks : List String) : String :=
+  match toks with
+  | ["alias", op, pat, s0, s1] =>
+    match parseOp? op, parseAlias? pat, parseInt? s0, parseInt? s1 with
+    | some o, some a, some x, some y => showOutcome (predictAlias o a x y)
+    | _, _, _, _ => badOp
+  | ["inputs", op, s0, s1] =>
+    match parseOp? op, parseInt? s0, parseInt? s1 with
+    | some o, some x, some y => showOutcome (predictInputs o x y)
+    | _, _, _ => badOp
+  | ["addhist", d0, d1, dOut] =>
+    match parseNat? d0, parseNat? d1, parseNat? dOut with
+    | some a, some b, some c => if a > 8 ∨ b > 8 ∨ c > 8 then badOp else showOutcome (predictAddHistory a b c)
+    | _, _, _ => badOp
+  | _ => badOp
 
 end Driver.C09
